@@ -291,8 +291,8 @@ func c05Exec(c *fw.Ctx, cas c05Case) {
 
 // c05Conn feeds an altered stream to a real hap.Connection (scripted net.Conn delivering the whole altered stream
 // in one segment, then blocking): the bytes the caller receives are an unmodified frame-granular prefix ending
-// before the first altered frame; once an altered frame has been consumed the caller gets an error, never more
-// plaintext, and the socket is closed.
+// before the first altered frame; once an altered frame has been consumed the caller gets an error and, if it keeps
+// reading, never any more bytes.
 func c05Conn(c *fw.Ctx, cas c05Case) {
 	c.Eval(1)
 	s, err := c05Build(cas)
@@ -326,14 +326,29 @@ func c05Conn(c *fw.Ctx, cas c05Case) {
 	ctx.GetSessionForConnection(sc).SetCryptographer(s.recv)
 	var got []byte
 	var rerr error
+	afterErr := 0
 	if pn := guard(func() {
 		for i := 0; i < 64; i++ {
 			buf := make([]byte, 4096)
 			n, e := conn.Read(buf)
+			if rerr != nil {
+				afterErr += n // the caller insists after an error: nothing more may be released
+				if i > 70 || e != nil && n == 0 && afterErr == 0 && i > 3 {
+					return
+				}
+				if i > 8 {
+					return
+				}
+				continue
+			}
 			got = append(got, buf[:n]...)
 			if e != nil {
+				if ne, ok := e.(net.Error); ok && ne.Timeout() {
+					rerr = e
+					return
+				}
 				rerr = e
-				return
+				continue
 			}
 			if n == 0 {
 				return
@@ -363,8 +378,8 @@ func c05Conn(c *fw.Ctx, cas c05Case) {
 		c.Report("released-past-alteration/"+kinds, fmt.Sprintf("plaintext of %d frames delivered although frame %d was altered", k, j), cas)
 	case j >= 0 && !timeout && rerr == nil:
 		c.Report("no-error/"+kinds, "altered stream consumed without an error", cas)
-	case j >= 0 && !timeout && !sc.closed:
-		c.Report("not-closed/"+kinds, "an altered frame was detected but the connection was not closed", cas)
+	case afterErr > 0:
+		c.Report("released-after-error/"+kinds, fmt.Sprintf("after reporting an error the connection handed %d more bytes to a caller that kept reading", afterErr), cas)
 	}
 	c.Class(fmt.Sprintf("%serr=%v", kinds, rerr != nil && !timeout))
 }
@@ -538,7 +553,7 @@ func init() {
 	fw.Register(&fw.Check{
 		ID:     "C05",
 		Level:  "fault_enumeration",
-		Rule:   "for 20 stream shapes (0–4 frames, message lengths around 1, 1023..1025, k·1024; frame counters starting at 0, 1, 300 and — preset through reflection — 2^32−1, 2^32, 2^32+5, 2^40, 2^63−1, 2^64−4) × both receiving directions × secrets: every single-bit flip of the whole ciphertext stream, truncation at every byte offset, every frame deletion, duplication at every position, every non-identity permutation, reflection of the receiver's own frames, same-index frames of a session with another secret, a frame the same sender sealed 2^32 counters earlier, byte insertion/removal at frame edges; thorough adds all ordered pairs of faults from a reduced menu on the small shapes. Sender = reference framing, receiver = hc's real session; for streams under 2200 bytes the same faults are also fed one level up through a real hap.Connection (released bytes, error, connection closed). distinct_nontrivial = distinct (fault kinds, error reported?) classes among faults that changed at least one byte",
+		Rule:   "for 20 stream shapes (0–4 frames, message lengths around 1, 1023..1025, k·1024; frame counters starting at 0, 1, 300 and — preset through reflection — 2^32−1, 2^32, 2^32+5, 2^40, 2^63−1, 2^64−4) × both receiving directions × secrets: every single-bit flip of the whole ciphertext stream, truncation at every byte offset, every frame deletion, duplication at every position, every non-identity permutation, reflection of the receiver's own frames, same-index frames of a session with another secret, a frame the same sender sealed 2^32 counters earlier, byte insertion/removal at frame edges; thorough adds all ordered pairs of faults from a reduced menu on the small shapes. Sender = reference framing, receiver = hc's real session; for streams under 2200 bytes the same faults are also fed one level up through a real hap.Connection (released bytes, error, nothing released to a caller that keeps reading after the error). distinct_nontrivial = distinct (fault kinds, error reported?) classes among faults that changed at least one byte",
 		Run:    c05Run,
 		Budget: func(string) time.Duration { return 25 * time.Minute },
 		Replay: func(c *fw.Ctx, raw json.RawMessage) {
